@@ -43,7 +43,7 @@ Definition check_node (c : node_case) : N :=
   let '(pcs, pps, rooms, pn, ires) := c in
   let courses := map mk_course pcs in let parts := map mk_part pps in let params := mk_params pcs in
   let nd := mk_node pn in
-  let es := esize32 params in let sf := shrinkf32 params in
+  let es := esize32 params in let sf := fixed_shrink courses (shrinkf32 params) in
   let model := run_full courses parts es sf rooms nd in
   let agree := res_agree model ires in
   let cls := Spec.validb courses parts && node_wfb courses nd && float_saneb courses es sf rooms in
